@@ -42,9 +42,9 @@ C = {
             TRUST + "Strict junk shapes are only those the property texts call unparsable; every other candidate is judged relative to the code's own verdict (warned => must be local).",
             "deterministic simulation: line-granular storage faults, conservation/locality oracles, kind-order permutation at the dispatcher seam", "DESIGN.md §4 C14"),
     "C15": ("fault_enumeration",
-            "For each seeded chart, EVERY single corruption of the sync data at EVERY position is applied (resolution 0; drop/shift the tick-0 tempo or signature; duplicate tempo k's tick; swap every pair of tempo lines; tempo k -> 0 for each k) and judged by the exact rule of the property (must raise ValueError / must not raise / queries governed by a zero tempo and negative ticks must raise). Exhaustive over (kind x position) per chart; charts are seeded samples.",
+            "For each seeded chart, EVERY single corruption of the sync data at EVERY position is applied, plus ordered PAIRS of such corruptions (all of them up to a per-chart cap, a seeded sample above it) (resolution 0; drop/shift the tick-0 tempo or signature; duplicate tempo k's tick; swap every pair of tempo lines; tempo k -> 0 for each k) and judged by the exact rule of the property (must raise ValueError / must not raise / queries governed by a zero tempo and negative ticks must raise). Exhaustive over (kind x position) per chart; charts are seeded samples.",
             TRUST + "The sync trust rule (five rejection conditions + zero-tempo governing rule) is the harness' executable reading of the property.",
-            "deterministic simulation: exhaustive single-fault enumeration over seeded charts, exact must-raise oracle", "DESIGN.md §4 C15"),
+            "deterministic simulation: exhaustive single-fault enumeration (plus fault pairs) over seeded charts, trust-rule predicate as exact must-raise oracle", "DESIGN.md §4 C15"),
     "C17": ("exploration",
             "Flagship. Seeded simulated runs: corpus of 3-8 texts, 1-4 caller threads with histories of parses (incl. failing ones), a deterministic line-level scheduler (geometric / PCT / sequential), and separate fault sub-batches: result-preserving I/O behaviour, EIO, abort at an arbitrary line of an arbitrary parse (cancellation / MemoryError), memo tables cleared at random boundaries. Every completed parse must equal (observation digest, exception, warnings, ==) a single parse of the same text in a process forked from the pristine image; a sample is cross-checked in a fresh interpreter under a random PYTHONHASHSEED. Sampling over histories and schedules; not a proof.",
             TRUST + "Pre-emption granularity is the source line inside chartparse frames; C calls are atomic.",
@@ -54,11 +54,11 @@ C = {
             TRUST + "Inputs outside the property's numeric bounds (digit runs > 8, TS exponent >= 64) are discarded and counted.",
             "deterministic simulation: seeded storage-fault sequences, exception-type oracle", "DESIGN.md §4 C18"),
     "C19": ("exploration",
-            "Seeded simulated runs: one shared parsed chart (+ an untouched twin), 1-4 reader threads with histories of read-only operations (subscripting by all instruments, rate queries in every argument form incl. failing ones, tick-to-time queries with legal/illegal hints, rendering, comparison, hashing, derived attributes, assignment attempts) under the line-level scheduler. After every operation: observation unchanged, twin equality both ways, result equals the same operation on a fresh parse, assignment rejected. Sampling over histories and schedules.",
+            "Seeded simulated runs: one shared parsed chart (+ an untouched twin), 1-4 reader threads with histories of read-only operations (subscripting by all instruments, rate queries in every argument form incl. failing ones, tick-to-time queries with legal/illegal hints, rendering, comparison, hashing, derived attributes, assignment attempts) under the line-level scheduler. After every operation: observation unchanged, twin equality both ways, result equals the same operation on a fresh parse, assignment rejected. A third of the concurrent runs are 'cold': the harness does not observe the shared chart before or between operations (so lazily computed attributes are first touched by the racing readers) and judges observation and twin equality once at the end against the untouched twin. Sampling over histories and schedules.",
             TRUST + "The sequential model is a fresh parse of the same text by the real parser.",
             "deterministic simulation: concurrent reader histories under a seeded scheduler, immutable-value model", "DESIGN.md §4 C19"),
     "C20": ("exploration",
-            "One fresh interpreter per import history: all first-imports and all ordered pairs of the package's modules exhaustively (ordered triples in the thorough tier), seeded longer permutations, 'import a.b' and 'from a.b import name' forms, random PYTHONHASHSEED. Oracle: every history succeeds, leaves the same public names bound to the same objects as the canonical order, and a smoke parse gives the canonical observation. Exhaustive for histories of length <= 2 (<= 3 thorough); longer ones sampled.",
+            "One fresh interpreter per import history: all first-imports and all ordered pairs of the package's modules exhaustively (ordered triples in the thorough tier), seeded longer permutations, 'import a.b', 'from a.b import *', 'from a import b' and importlib forms, random PYTHONHASHSEED. Oracle: every history succeeds, every import statement hands out the module it names, the history leaves the same public names bound to the same objects as the canonical order, and a smoke parse gives the canonical observation. Exhaustive for histories of length <= 2 (<= 3 thorough); longer ones sampled.",
             TRUST + "The module list is discovered from chartparse/*.py at run time; concurrent first-imports from two threads are not part of the property.",
             "deterministic simulation: one interpreter per import history (exhaustive short histories, seeded long ones), identity-snapshot oracle", "DESIGN.md §4 C20"),
 }
